@@ -18,6 +18,7 @@ def scenarios(thorough):
     slow = [["readall_after_block", 1]]
     closers = [("close", {"k": 1, "kind": "close"}, {}), ("http10", {"k": 1, "kind": "http10"}, {}),
                ("bad", {"k": 1, "kind": "bad"}, {}), ("undelimitable", P(1), {1: {"cl": "larger"}}),
+               ("http10 keep-alive with Transfer-Encoding", {"k": 1, "kind": "te10"}, {}),
                ("app-raises", P(1), {1: {"raise_at": 1, "chunks": [3, 3], "cl": "none"}})]
     followers = [("complete", [P(2)]), ("partial", [{"k": 2, "kind": "partial"}]), ("garbage", [{"k": 2, "kind": "garbage"}])]
     las = (0, 1, 2, 5) if thorough else (0, 1, 2)
@@ -55,6 +56,13 @@ def scenarios(thorough):
         out.append(cc.mk([P(1), P(2)], lookahead=la, workers=1, room=30, extra_client=[["read_after_block", 1, 40], ["read_after_block", 2, 50]], drains=False,
                          faults={"send": [None, None, None] + [errno.EHOSTUNREACH] * 6}, apps={1: {"chunks": [60]}, 2: {"chunks": [30]}},
                          adj={"outbuf_high_watermark": 50}, name="send error while the worker is paused in write_soon, follower queued, la=%d" % la))
+    # a recv error (not a disconnect) while requests are queued: nothing that was buffered is executed afterwards
+    for la in (1, 2):
+        for e in (errno.ETIMEDOUT, errno.EHOSTUNREACH):
+            out.append(cc.mk([P(1), P(2), P(3)], lookahead=la, workers=1, split="each", faults={"recv": [None, None, e]}, drains=False,
+                             name="recv#3 fails %s with requests queued, la=%d" % (errno.errorcode[e], la)))
+            out.append(cc.mk([P(1), P(2)], lookahead=la, workers=2, split="each", faults={"recv": [None, e]}, drains=False,
+                             name="recv#2 fails %s while the first request runs, la=%d" % (errno.errorcode[e], la)))
     # the application fails with an OSError after the head is out and socket errors are not logged: the truncated
     # response closes the connection all the same
     out.append(cc.mk([P(1), P(2)], lookahead=1, workers=2, apps={1: {"raise_at": 1, "chunks": [3, 3], "exc": "OSError"}}, adj={"log_socket_errors": False},
